@@ -237,9 +237,21 @@ type StoreEvent struct {
 // RecStorage wraps the real in-memory storage and records every Store* call and its result.
 type RecStorage struct {
 	*storage.InMemoryStorage
-	mu  sync.Mutex
-	Log []StoreEvent
+	mu     sync.Mutex
+	Log    []StoreEvent
+	Clears []primitives.BlockHeight // every ClearBlockHeightLogs call
 }
+
+func (s *RecStorage) ClearBlockHeightLogs(h primitives.BlockHeight) {
+	s.mu.Lock()
+	s.Clears = append(s.Clears, h)
+	s.mu.Unlock()
+	s.InMemoryStorage.ClearBlockHeightLogs(h)
+}
+
+// NClears / NLog: lengths under the lock (engine R reads them from another goroutine).
+func (s *RecStorage) NClears() int { s.mu.Lock(); defer s.mu.Unlock(); return len(s.Clears) }
+func (s *RecStorage) NLog() int    { s.mu.Lock(); defer s.mu.Unlock(); return len(s.Log) }
 
 func NewRecStorage() *RecStorage {
 	return &RecStorage{InMemoryStorage: storage.NewInMemoryStorage()}
@@ -324,6 +336,13 @@ func (s *Sched) Stop() {
 	s.cb = nil
 	s.Stops++
 	s.mu.Unlock()
+}
+
+// Snap: (active, current registration, number of Stop calls, number of RegisterOnElection calls) under the lock.
+func (s *Sched) Snap() (bool, Registration, int, int) {
+	s.mu.Lock()
+	defer s.mu.Unlock()
+	return s.Active, s.Cur, s.Stops, len(s.Log)
 }
 
 // Trigger builds the ElectionTrigger the real timer would put on the channel for the active registration.
